@@ -502,9 +502,13 @@ func main() {
 		"&x of int-slot and val-slot variables at upn 0..n, closures and pointers escaping through results, global slices, maps and struct fields, method values and method expressions; "+
 		"every declaration evaluated by its own Eval, then run() evaluated: (a) normally (b) with the pool poisoned at every probe (c) compiled Go. "+
 		"A program is non-trivial when it performed >=1 pool hit (a frame taken from the pool) and created >=1 closure or int pointer that was used after its creating call returned; distinct by SHA-256 of the source")
-	n, perShard := 120, 20
+	n, perShard, histGroup := 120, 20, 1
 	if a.Thorough() {
-		n, perShard = 2500, 320
+		// measured 2026-09-22 on the loaded machine with 2500 programs / 320 per shard: oracle 34 min (one package per
+		// program, 0.8 s each), gomacro runs 19 min, and the 8 MB case files (25 KB per program case) needed 4+ GB of
+		// memory and > 15 min EACH in coqc (8 in parallel exhausted the 62 GB of the machine).  Now: 700 programs in
+		// files of 40 (~1 MB), the small history cases (1 KB) packed 10 per entry = 400 per file.
+		n, perShard, histGroup = 700, 40, 10
 	}
 	t0 := time.Now()
 	lap := func(what string) { fmt.Fprintf(os.Stderr, "[c06] %-28s %6.1fs\n", what, time.Since(t0).Seconds()) }
@@ -698,13 +702,19 @@ func main() {
 	// the refinement is proved only in the partial forms of Props.v)
 	nHist := 150
 	if a.Thorough() {
-		nHist = 3000
+		nHist = 2000
 	}
 	if a.Replay != "" {
 		nHist = 0
 	}
+	// vh.Cases shards by number of entries; one entry may hold several list elements ("a;\n b"): histGroup histories
+	var group []string
 	for h := 0; h < nHist; h++ {
-		cw.Add(fmt.Sprintf("mkHist %d %d %s", len(progs)+h, 1+rng.Intn(3), vh.CoqList(randomHistory(rng.Fork(), 40+rng.Intn(80)), "op")))
+		group = append(group, fmt.Sprintf("mkHist %d %d %s", len(progs)+h, 1+rng.Intn(3), vh.CoqList(randomHistory(rng.Fork(), 40+rng.Intn(80)), "op")))
+		if len(group) >= histGroup || h == nHist-1 {
+			cw.Add(strings.Join(group, ";\n "))
+			group = nil
+		}
 	}
 	rep.Extra["synthetic_histories_refinement_checked"] = nHist
 	cw.Close()
